@@ -1,14 +1,20 @@
 """C13 — kruskal and prim (solvor/mst.py) against the proved models and verified checkers of Solvor/Mst.
 
-One *case* is one undirected weighted graph; on it the real `kruskal` (allow_forest False and
-True, backend='python') and the real `prim` (start=None and a list of start nodes) are run.  Every
-verdict on an implementation output comes from a Bool checker evaluated in Lean whose soundness is
-proved in Solvor/Mst/Theorems.lean:
+One *case* is one undirected weighted graph; on it the real `kruskal` (allow_forest False, True
+and not passed, backend='python') and the real `prim` (start=None and a list of start nodes) are
+run.  Every verdict on an implementation output comes from a Bool checker evaluated in Lean whose
+correctness is proved in Solvor/Mst/Theorems.lean:
 
-  chkSpanningTree    n-1 input edges connecting all nodes   (=> spanning tree, acyclic)
+  chkSpanningTree    n-1 input edges connecting all nodes   (<=> spanning tree; => acyclic)
   chkSpanningForest  input edges, acyclic, same components as the input
   chkMinCert         cycle-property certificate             (=> weight minimal over ALL spanning trees/forests)
   connectedB         the input graph is connected
+  goodAdjB/sameGraphB  the hypotheses of the prim theorems hold of the generated adjacency lists
+
+and the mirrors' own answers are proved for every input (kruskal_forest, kruskal_minimal,
+prim_tree, prim_minimal, kruskal_prim_agree, kruskalUF_eq), so "weight = the mirror's weight" is
+"weight = the minimum".  `mstBrute` (<= 12 edges) is a bounded definitional oracle kept as a
+cross-check of the specification only.
 
 Weights are integers k or dyadic rationals k/scale; Lean gets k, Python gets k/scale (exact in
 binary floating point, sums far below 2**53, so every comparison is exact).
@@ -24,17 +30,22 @@ from pool import err_kind, run_pool
 AREAS = ["Mst"]
 LEVEL = "proof"
 ASSUMPTIONS = [
-    "sorted(key=weight) modelled as a stable sort (List.mergeSort); heapq modelled as 'pop the least "
-    "(weight, counter)' (counters are unique, so node labels are never compared); tied by R_trace: the "
-    "returned edge lists equal the mirrors' in order",
+    "sorted(key=weight) modelled as a stable insertion sort; heapq modelled as 'pop the least (weight, counter)' "
+    "(counters are unique, so node labels are never compared); tied by R_trace: the returned status, edge list "
+    "(in order) and objective equal the mirrors' on every explored input",
+    "UnionFind (parent/rank, path compression, union by rank) is inside the model: kruskalUF_eq proves the literal "
+    "mirror returns what the label model returns",
     "weights are integers / dyadic rationals (exact float sums); IEEE rounding of arbitrary float weights is "
     "outside the model",
-    "prim is given an undirected graph: every edge listed in both adjacency lists and every node a dict key",
+    "prim is given an undirected graph: every edge listed in both adjacency lists and every node a dict key "
+    "(GoodAdj, decided per input by the verified goodAdjB; sameGraphB ties it to kruskal's edge list)",
+    "the constants of `len(mst_edges) == n_nodes - 1`, `< n_nodes - 1` and the allow_forest default are regenerated "
+    "from the source into Solvor/Gen/MstConsts.lean on every run",
 ]
 RULE = ("random undirected multigraphs, <= 8 nodes / <= 14 edges (thorough: every third case up to 12 / 24): spanning "
         "tree + extra edges, sparse random (often disconnected), several components, complete graphs; duplicate and "
         "reversed-duplicate edges, self loops, few distinct / equal / negative / dyadic weights, int-float mixes; "
-        "kruskal with allow_forest False and True, prim from start=None and from start nodes (thorough: every node) "
+        "kruskal with allow_forest False, True and not passed, prim from start=None and from start nodes (thorough: every node) "
         "with int / shifted / negative / str / tuple / mixed node labels and shuffled adjacency lists; non-trivial = "
         "the kruskal mirror rejected >= 1 edge (iterations > accepted edges); distinct by (n, edges, scale)")
 
@@ -233,10 +244,11 @@ def impl(case):
     def nid_int(x):
         return x if isinstance(x, int) and not isinstance(x, bool) and 0 <= x < n else -1
 
-    for af in ((False, True) if n > 0 else ()):
+    for af in ((False, True, "default") if n > 0 else ()):
         edges = [(u, v, pyweight(case, k, i)) for i, (u, v, k) in enumerate(case["edges"])]
+        kw = {} if af == "default" else {"allow_forest": af}
         try:
-            out["kruskal"][str(af)] = ("ok", _canon(kruskal(n, edges, allow_forest=af, backend="python"), scale, nid_int))
+            out["kruskal"][str(af)] = ("ok", _canon(kruskal(n, edges, backend="python", **kw), scale, nid_int))
         except BaseException as e:  # noqa: BLE001
             out["kruskal"][str(af)] = ("err", f"{type(e).__name__}: {e}"[:300])
     labs = [label(case["labels"], i) for i in range(n)]
@@ -272,7 +284,7 @@ def _hashable(x):
 # ---------------------------------------------------------------------------
 
 def calls_of(case):
-    cs = [("kruskal", "False"), ("kruskal", "True")] if case["n"] > 0 else []
+    cs = [("kruskal", "False"), ("kruskal", "True"), ("kruskal", "default")] if case["n"] > 0 else []
     cs += [("prim", str(st)) for st in case["starts"]]
     return cs
 
@@ -295,7 +307,7 @@ def requests_for(case, out):
         o = out[1][fn].get(key) if out[0] == "ok" else None
         sol = wellformed(o[1]["sol"]) if o and o[0] == "ok" else None
         if fn == "kruskal":
-            reqs.append(["kruskal", case["n"], case["edges"], key == "True", sol])
+            reqs.append(["kruskal", case["n"], case["edges"], None if key == "default" else key == "True", sol])
         else:
             reqs.append(["prim", case["adj"], 0 if key == "None" else int(key), sol, case["edges"]])
     return reqs
@@ -456,6 +468,11 @@ def run(ctx, budget):
     ctx.cov["cert_checked_impl"] = h.get("cert_checked_impl", 0)
     ctx.cov["r_trace_agree"] = h.get("r_trace_agree", 0)
     ctx.cov["brute_checked"] = h.get("brute_checked", 0)
+    ctx.cov["missing_theorems"] = []
+    ctx.cov["excluded_region"] = ("prim on the empty dict (no nodes), one-shot iterators as neighbour lists, adjacency "
+                                  "lists that are not symmetric or name nodes that are not keys, start nodes that are "
+                                  "not nodes, n_nodes <= 0 / endpoints out of range (ValueError), non-dyadic float "
+                                  "weights whose sums round")
 
 
 def replay(ctx, body):
